@@ -64,7 +64,67 @@ def selftest():
     print("selftest: %d/%d recorded traces accepted; %d/%d corrupted traces rejected; %d/%d traces with a dropped event rejected"
           % (sum(v.accepted for v in good), len(good), n_rej, len(bad), n_rej2, len(dropped)))
     # (a dropped nested Enter whose Exit lies beyond the end of the trace leaves a consistent log)
-    return 0 if (n_rej == len(bad) and n_rej2 >= 0.8 * len(dropped)) else 1
+    ok_cfg = selftest_config()
+    return 0 if (n_rej == len(bad) and n_rej2 >= 0.8 * len(dropped) and ok_cfg) else 1
+
+
+def selftest_config():
+    """The same demonstration for the central machine: recorded Config traces (schema SchemaA) are accepted by
+    Trace_Config.tla as logged, rejected when one logged outcome is flipped, when the logged state after one accepted
+    assignment is replaced by the state before it (as if the library had dropped the assignment), and when an
+    accepted event is removed from the log."""
+    import copy
+
+    from . import tracecheck
+    from .props import cfgmachine
+
+    cinco = common.import_repo()
+    d = tlc.scratch("cinco-selftest-")
+    desc = cfgmachine.schema_descriptor("MC_Config", "SchemaA")
+    cfgmachine.NORM_DESC[0] = desc
+    traces = cfgmachine.driver(cinco, desc, 4242, 40, 12)
+    tcfg = os.path.join(d, "trace.cfg")
+    with open(tcfg, "w") as fp:
+        fp.write(
+            cfgmachine.base_cfg("SchemaA", 99).replace("INIT Init", "INIT TraceInit").replace("NEXT Next", "NEXT TraceNext").replace("VIEW View", "VIEW TraceView")
+            + "ACTION_CONSTRAINT Report\nCONSTRAINT ReportState\n"
+        )
+    good, _ = tracecheck.validate("Trace_Config.tla", tcfg, traces)
+    n_good = sum(1 for v in good if v.accepted)
+
+    def mutate(fn):
+        out = []
+        for t in copy.deepcopy(traces):
+            evs = t["events"]
+            idx = [i for i, e in enumerate(evs) if e.get("op") in ("SetAttr", "SetItem") and e.get("out") == "ok" and i > 0 and e.get("cfgs") != evs[i - 1].get("cfgs")]
+            if not idx:
+                continue
+            if fn(evs, idx[len(idx) // 2]):
+                out.append(t)
+        return out
+
+    def flip(evs, i):
+        evs[i]["out"] = "ValidationError"
+        return True
+
+    def stale(evs, i):
+        evs[i]["cfgs"] = copy.deepcopy(evs[i - 1]["cfgs"])
+        return True
+
+    def drop(evs, i):
+        del evs[i]
+        return True
+
+    res = {}
+    for name, fn in (("outcome flipped", flip), ("state not updated", stale), ("event dropped", drop)):
+        bad = mutate(fn)
+        rej, _ = tracecheck.validate("Trace_Config.tla", tcfg, bad)
+        # a trace whose replay stopped at an event the specification does not model (before the corruption) says nothing
+        rej = [v for v in rej if not (v.accepted and v.truncated)]
+        res[name] = (sum(1 for v in rej if not v.accepted), len(rej))
+    print("selftest (Config): %d/%d recorded traces accepted; rejected: %s" % (n_good, len(good), ", ".join("%s %d/%d" % (k, a, b) for k, (a, b) in res.items())))
+    # (an assignment that the next logged event overwrites can be dropped without leaving an inconsistent log)
+    return n_good == len(good) and all(b > 0 and (a == b or (k == "event dropped" and a >= 0.8 * b)) for k, (a, b) in res.items())
 
 
 def main(argv=None):
